@@ -512,11 +512,16 @@ func (w *Writer) WriteChunkWithIndexes(c *Chunk, messageIndexes []*MessageIndex)
 
 	w.Statistics.ChunkCount++
 
-	if w.Statistics.MessageStartTime == 0 || c.MessageStartTime < w.Statistics.MessageStartTime {
-		w.Statistics.MessageStartTime = c.MessageStartTime
-	}
-	if c.MessageEndTime > w.Statistics.MessageEndTime {
-		w.Statistics.MessageEndTime = c.MessageEndTime
+	// Messages written through WriteMessage are accounted for there, one by one. The chunk's time range is
+	// only folded in when chunks are written directly, and only for a chunk that holds messages (both of its
+	// times are the zero sentinel otherwise).
+	if w.Statistics.MessageCount == 0 && (c.MessageStartTime != 0 || c.MessageEndTime != 0) {
+		if w.Statistics.MessageStartTime == 0 || c.MessageStartTime < w.Statistics.MessageStartTime {
+			w.Statistics.MessageStartTime = c.MessageStartTime
+		}
+		if c.MessageEndTime > w.Statistics.MessageEndTime {
+			w.Statistics.MessageEndTime = c.MessageEndTime
+		}
 	}
 
 	return nil
